@@ -970,7 +970,7 @@ func xfInChild(c *lib.Ctx, id string, body func(c *lib.Ctx)) {
 		args = append(args, "--replay", c.Replay)
 	}
 	cmd := exec.Command(os.Args[0], args...)
-	cmd.Env = append(os.Environ(), "VH_XFER_INFLIGHT="+slots, "GOTRACEBACK=single")
+	cmd.Env = append(os.Environ(), "VH_XFER_INFLIGHT="+slots, "GOTRACEBACK=single", "TMPDIR="+dir) // the child's scratch lives (and dies) under our directory
 	var stderr bytes.Buffer
 	cmd.Stderr = &stderr
 	limit := 10 * time.Minute
